@@ -191,7 +191,7 @@ func (w *W) settleRelay() error {
 		}
 		// every relay goroutine is parked on a pending dial or on a live idle connection, and every
 		// push whose target has answered has gone through AddRtmpPushSession
-		if gor == pend+len(live) && pushAdds == startedPush {
+		if gor == pend+len(live)+w.PsExpected && pushAdds == startedPush {
 			// the network must still be quiet (a goroutine may have moved between the two looks)
 			if w.Net.IsQuiescent() {
 				return nil
@@ -199,8 +199,8 @@ func (w *W) settleRelay() error {
 			continue
 		}
 		if time.Now().After(deadline) {
-			return fmt.Errorf("%w: relay goroutines never came to rest: %d relay goroutines alive (%d push sessions handed to their group), environment has %d pending dials, %d live client connections (%d push targets answered): %s",
-				netsim.ErrHang, gor, pushAdds, pend, len(live), startedPush, w.Net.Describe())
+			return fmt.Errorf("%w: relay goroutines never came to rest: %d relay goroutines alive (%d push sessions handed to their group), environment has %d pending dials, %d live client connections (%d push targets answered), %d GB28181 sessions expected: %s",
+				netsim.ErrHang, gor, pushAdds, pend, len(live), startedPush, w.PsExpected, w.Net.Describe())
 		}
 		time.Sleep(20 * time.Microsecond)
 	}
